@@ -119,6 +119,8 @@ class ClassInfo(object):
                         kind = 'getter'
                     elif 'property' in decos:
                         kind = 'property'
+                    elif any(d.split('.')[-1] == 'cached_property' for d in decos):
+                        kind = 'cachedprop'
                     elif 'staticmethod' in decos:
                         kind = 'static'
                     elif 'classmethod' in decos:
@@ -130,8 +132,50 @@ class ClassInfo(object):
                     for t in st.targets:
                         for nm in _target_names(t):
                             mem.setdefault(nm, []).append(('classattr', st))
+                elif isinstance(st, ast.AnnAssign) and st.value is not None and isinstance(st.target, ast.Name):
+                    # `name: type = value` in a class body binds like a plain assignment (seen as one by the interpreter)
+                    plain = ast.copy_location(ast.Assign(targets=[st.target], value=st.value), st)
+                    plain.annotation = st.annotation
+                    mem.setdefault(st.target.id, []).append(('classattr', plain))
             self._members = mem
         return self._members
+
+    def dataclass_options(self):
+        """None, or the keyword options of the @dataclass decorator of this class ({} for the bare decorator).
+        Any other class decorator is an analysis gap."""
+        opts = None
+        for d in self.node.decorator_list:
+            call = d if isinstance(d, ast.Call) else None
+            f = call.func if call is not None else d
+            name = f.attr if isinstance(f, ast.Attribute) else (f.id if isinstance(f, ast.Name) else None)
+            if name != 'dataclass':
+                raise AnalysisError('class decorator %s on %s is not modelled' % (ast.unparse(d), self.qualname))
+            opts = {}
+            if call is not None:
+                if call.args:
+                    raise AnalysisError('positional arguments of @dataclass')
+                for k in call.keywords:
+                    if not isinstance(k.value, ast.Constant):
+                        raise AnalysisError('@dataclass(%s=<not a constant>)' % k.arg)
+                    opts[k.arg] = k.value.value
+        return opts
+
+    def dataclass_fields(self):
+        """[(name, default expression or None, owner)] of the dataclass fields through the MRO, in field order; None when
+        no class of the MRO is a dataclass."""
+        if not any(c.dataclass_options() is not None for c in self.mro()):
+            return None
+        fields = {}
+        for c in reversed(self.mro()):
+            if c.dataclass_options() is None:
+                continue
+            for st in c.node.body:
+                if isinstance(st, ast.AnnAssign) and isinstance(st.target, ast.Name):
+                    if 'ClassVar' in ast.unparse(st.annotation):
+                        continue
+                    fields.pop(st.target.id, None) if False else None
+                    fields[st.target.id] = (st.target.id, st.value, c)
+        return list(fields.values())
 
     def lookup(self, attr, want_setter=False, after=None):
         """Resolve attr through the MRO.  Returns (kind, node, owner) or None.
